@@ -582,6 +582,153 @@ def r5_quantities(ctx):
     ctx.check(ok, 'C15.R5', f'{func_label(fn)}|restore-range-length', loc(fn, fn.node), 'restore: a reference contributes end - start bytes', 'restore: reference length is not end - start')
 
 
+def _fold(e, consts):
+    """Constant folding of the integer arithmetic used in unit tables."""
+    if isinstance(e, ast.Constant) and isinstance(e.value, (int, float)) and not isinstance(e.value, bool):
+        return e.value
+    if isinstance(e, ast.Name) and e.id in consts:
+        return _fold(consts[e.id], {})
+    if isinstance(e, ast.BinOp):
+        l, r = _fold(e.left, consts), _fold(e.right, consts)
+        if l is None or r is None:
+            return None
+        if isinstance(e.op, ast.Pow) and abs(r) < 16:
+            return l**r
+        if isinstance(e.op, ast.Mult):
+            return l * r
+    return None
+
+
+def r5b_human_sizes(ctx):
+    """The sizes in the listings go through utils.bytes_to_human.  Whatever its form, the number printed with a unit is
+    the byte count divided by that unit's own power of 1000: a cell that pairs a unit with another divisor shows a size
+    that is off by a factor of 1000.  Decided on the two forms a unit scaler takes: a chain of range tests assigning
+    (divisor, unit) pairs, or a loop over a constant unit sequence dividing as it goes (unrolled here over that constant)."""
+    corpus = ctx.corpus
+    um = corpus.module('utils')
+    f = um.functions.get('bytes_to_human')
+    if f is None:
+        raise AnalysisError('C15.R5: utils.bytes_to_human missing')
+    ctx.analysed(f)
+    consts = {k: v for k, v in um.assigns.items()}
+    order = ['B', 'K', 'M', 'G', 'T', 'P', 'E']
+    key = f'{func_label(f)}|unit-matches-divisor'
+    val = f.node.args.args[0].arg
+    loops = [l for l in walk_local(f.node) if isinstance(l, (ast.For, ast.While))]
+    problems, npairs = [], 0
+    if not loops:
+        bodies = []
+        for i in [x for x in walk_local(f.node) if isinstance(x, ast.If)]:
+            bodies.append((i, i.body))
+            if i.orelse and not (len(i.orelse) == 1 and isinstance(i.orelse[0], ast.If)):
+                bodies.append((None, i.orelse))
+        for gov, body in bodies:
+            num = unit = first = None
+            for a in body:
+                if not isinstance(a, ast.Assign):
+                    continue
+                pairs = list(zip(a.targets[0].elts, a.value.elts)) if isinstance(a.targets[0], ast.Tuple) and isinstance(a.value, ast.Tuple) and len(a.targets[0].elts) == len(a.value.elts) else [(a.targets[0], a.value)]
+                for tg, v in pairs:
+                    if isinstance(v, ast.Constant) and isinstance(v.value, str) and v.value in order:
+                        unit, first = v.value, first or a
+                    elif _fold(v, consts) is not None:
+                        num, first = _fold(v, consts), first or a
+            if num is None or unit is None:
+                continue
+            npairs += 1
+            a = first
+            if num != 1000 ** order.index(unit):
+                problems.append((a, f'unit {unit!r} is paired with the divisor {num}'))
+            t = gov.test if gov is not None else None
+            if isinstance(t, ast.Compare) and all(isinstance(o, (ast.Lt, ast.LtE)) for o in t.ops):
+                terms = [t.left] + list(t.comparators)
+                folded = [_fold(x, consts) for x in terms]
+                vi = [i for i, x in enumerate(terms) if isinstance(x, ast.Name) and x.id == val]
+                if len(vi) == 1:
+                    i = vi[0]
+                    lo = folded[i - 1] if i > 0 else None
+                    hi = folded[i + 1] if i + 1 < len(folded) else None
+                    if hi is not None and hi != num * 1000:
+                        problems.append((a, f'values below {hi} are shown in {unit!r} (divisor {num})'))
+                    if lo is not None and lo != num and not (num == 1 and lo == 0):
+                        problems.append((a, f'values from {lo} are shown in {unit!r} (divisor {num})'))
+        if npairs < 2:
+            raise AnalysisError('C15.R5: the unit selection of utils.bytes_to_human is in a form this rule does not model')
+    else:
+        if len(loops) != 1 or not isinstance(loops[0], ast.For):
+            raise AnalysisError('C15.R5: the unit loop of utils.bytes_to_human is in a form this rule does not model')
+        lp = loops[0]
+        it = lp.iter
+        trim = 0
+        if isinstance(it, ast.Subscript) and isinstance(it.slice, ast.Slice) and it.slice.lower is None and it.slice.step is None and isinstance(it.slice.upper, ast.UnaryOp) and isinstance(it.slice.upper.op, ast.USub) and isinstance(it.slice.upper.operand, ast.Constant):
+            trim = it.slice.upper.operand.value
+            it = it.value
+        if isinstance(it, ast.Name) and it.id in consts:
+            it = consts[it.id]
+        if isinstance(it, ast.Constant) and isinstance(it.value, str):
+            units_all = list(it.value)
+        elif isinstance(it, (ast.Tuple, ast.List)) and all(isinstance(e, ast.Constant) and isinstance(e.value, str) for e in it.elts):
+            units_all = [e.value for e in it.elts]
+        else:
+            raise AnalysisError('C15.R5: the unit sequence of utils.bytes_to_human is not a constant')
+        units = units_all[: len(units_all) - trim] if trim else units_all
+        if not isinstance(lp.target, ast.Name) or any(u not in order for u in units_all):
+            raise AnalysisError('C15.R5: the unit loop of utils.bytes_to_human is in a form this rule does not model')
+        uvar = lp.target.id
+
+        def is_div(st):
+            if isinstance(st, ast.AugAssign) and isinstance(st.op, (ast.Div, ast.FloorDiv)) and isinstance(st.target, ast.Name) and st.target.id == val:
+                return _fold(st.value, consts)
+            if isinstance(st, ast.Assign) and isinstance(st.targets[0], ast.Name) and st.targets[0].id == val and isinstance(st.value, ast.BinOp) and isinstance(st.value.op, (ast.Div, ast.FloorDiv)) and isinstance(st.value.left, ast.Name) and st.value.left.id == val:
+                return _fold(st.value.right, consts)
+            return None
+
+        exits = []  # (divisions, unit, how)
+        count = 0
+        for i, u in enumerate(units):
+            for st in lp.body:
+                d = is_div(st)
+                if d is not None:
+                    if d != 1000:
+                        problems.append((st, f'each step divides by {d}'))
+                    count += 1
+                elif isinstance(st, ast.If) and len(st.body) == 1 and isinstance(st.body[0], ast.Break) and not st.orelse:
+                    exits.append((count, u, st))
+                elif isinstance(st, ast.If) and len(st.body) == 1 and isinstance(st.body[0], ast.Return):
+                    exits.append((count, u, st))
+                elif isinstance(st, (ast.Expr, ast.Pass)):
+                    continue
+                else:
+                    raise AnalysisError('C15.R5: the unit loop of utils.bytes_to_human is in a form this rule does not model')
+        last_unit = units[-1] if units else None
+        for st in lp.orelse:
+            if isinstance(st, ast.Assign) and isinstance(st.targets[0], ast.Name) and st.targets[0].id == uvar:
+                v = st.value
+                if isinstance(v, ast.Constant):
+                    last_unit = v.value
+                elif isinstance(v, ast.Subscript) and isinstance(v.slice, ast.UnaryOp) and isinstance(v.slice.operand, ast.Constant) and v.slice.operand.value == 1:
+                    last_unit = units_all[-1]
+                else:
+                    raise AnalysisError('C15.R5: the unit loop of utils.bytes_to_human is in a form this rule does not model')
+            elif is_div(st) is not None:
+                count += 1
+            else:
+                raise AnalysisError('C15.R5: the unit loop of utils.bytes_to_human is in a form this rule does not model')
+        exits.append((count, last_unit, lp))
+        npairs = len(exits)
+        for cnt, u, st in exits:
+            if u not in order or cnt != order.index(u):
+                problems.append((st, f'leaving the unit loop {"by exhaustion" if st is lp else "at " + repr(u)} the value has been divided by 1000 {cnt} time(s) but is printed with the unit {u!r}'))
+    ctx.check(
+        not problems,
+        'C15.R5',
+        key,
+        loc(f, problems[0][0] if problems else f.node),
+        f'utils.bytes_to_human: each of the {npairs} unit choices prints the byte count divided by that unit\'s own power of 1000',
+        f'utils.bytes_to_human: {problems[0][1] if problems else ""}: sizes in the listings are off by a factor of 1000 in that range',
+    )
+
+
 def r6_placeholder_only_for_none(ctx):
     """The table placeholder stands for "no value" (None) only.  A count of 0, an empty note or any other falsy value
     is a value and is printed as it is: the substitution is decided by a None test, never by truthiness."""
@@ -647,4 +794,8 @@ def run(ctx):
     r3_regex(ctx)
     r4_refusal(ctx)
     r5_quantities(ctx)
+    r5b_human_sizes(ctx)
     r6_placeholder_only_for_none(ctx)
+    from .c13 import r2_pagination
+
+    r2_pagination(_RL15(ctx, 'C15.R1'))
